@@ -121,7 +121,7 @@ func init() {
 			}
 			if known != "" {
 				feats = append(feats, "equality-not-judged:"+known)
-			} else if !((hasFeat(feats, "agg:topk") || hasFeat(feats, "agg:bottomk")) && resOn.Err == nil && refRes.Err == nil && TopkAmbiguous(c, expr, st)) {
+			} else if !((hasFeat(feats, "agg:topk") || hasFeat(feats, "agg:bottomk")) && TopkAmbiguous(c, expr, st)) {
 				return violation("%swith fallback enabled (path %s) the answer differs from the reference: %s\nengine:    %s\nreference: %s\n", hdr, path, d, resOn, refRes)
 			}
 		}
